@@ -156,7 +156,8 @@ func (f safeFmtr) SafeFormat(p redact.SafePrinter, verb rune) {
 	p.Printf("[%v|%d]", f.unsafe, redact.Safe(7))
 }
 
-type safeMsgr struct{ s string }
+// only the message is declared safe; `hidden` is an ordinary field
+type safeMsgr struct{ s, hidden string }
 
 func (m safeMsgr) SafeMessage() string { return "MSG(" + m.s + ")" }
 
@@ -310,7 +311,7 @@ func (v *Val) build(inst int) interface{} {
 	case KSafeFormatter:
 		return safeFmtr{safeStr(v.ID), unsafeStr(v.ID, inst)}
 	case KSafeMessager:
-		return safeMsgr{safeStr(v.ID)}
+		return safeMsgr{safeStr(v.ID), unsafeStr(v.ID, inst)}
 	case KErrFormatter:
 		return errFmtr{unsafeStr(v.ID, inst)}
 	case KErrStringer:
